@@ -17,11 +17,14 @@ def _exc_classes():
     return WebSocketProtocolException, WebSocketPayloadException, WebSocketConnectionClosedException
 
 
-def r_any(T):
-    """first recv_frame() on an arbitrary T-byte stream followed by end of stream"""
+def r_any(T, prefix=""):
+    """first recv_frame() on an arbitrary T-byte stream (optionally after a fixed hex prefix) followed by end of stream"""
     quiet_logging()
     Proto, Payload, Closed = _exc_classes()
     stream = sx.sym_bytes("s", T)
+    if prefix:
+        stream = bytes.fromhex(prefix) + stream
+        T = len(stream)
     sock = FakeSock([stream, "eof"])
     ws = new_ws(sock)
     try:
@@ -129,7 +132,7 @@ def r_seq(k, api):
         if api == "recv_frame":
             fin = sx.sym_int("fin%d" % i, 1)
             opcode = sx.sym_int("op%d" % i, 4)
-            sx.assume(sx.Or(opcode == 0, opcode == 1, opcode == 2, opcode == 10, sx.And(opcode == 9, fin == 1)))
+            sx.assume(sx.Or(opcode == 0, opcode == 1, opcode == 2, sx.And(sx.Or(opcode == 9, opcode == 10), fin == 1)))
         else:
             fin = 1
             opcode = sx.sym_int("op%d" % i, 4)
@@ -211,8 +214,8 @@ def obligations(tier):
             big.append(dict(form=form, L=L, masked=masked))
     seq = [dict(k=k, api=api) for api in ("recv_frame", "recv_data_frame", "recv_data") for k in ((1, 2, 3) if thorough else (1, 2))]
     return [
-        Obligation("R-any", r_any, [dict(T=t) for t in Ts],
-                   bounds="EVERY byte stream of length T for T = 0..%d (all %d-bit values at once), then end of stream" % (Ts[-1], 8 * Ts[-1]),
+        Obligation("R-any", r_any, [dict(T=t) for t in Ts] + [dict(T=t, prefix=p) for p in ("827f", "02ff", "817e", "89fe") for t in ((8, 9, 10, 12) if p[2:] in ("7f", "ff") else (2, 3, 4, 6))],
+                   bounds="EVERY byte stream of length T for T = 0..%d (all %d-bit values at once), then end of stream; plus streams starting with a fixed 16-/64-bit-length header followed by 8..12 (2..6) arbitrary bytes, i.e. ALL 64-bit declared lengths" % (Ts[-1], 8 * Ts[-1]),
                    outside=["streams longer than the bound (structure beyond it is covered by R-big/R-seq shapes)"],
                    must_cover=["frame", "truncated", "rejected", "masked"], budget_s=2400 if thorough else 600,
                    kernel=["frame_buffer.recv_frame", "recv_header", "recv_length", "recv_mask", "recv_strict", "ABNF.mask",
